@@ -812,17 +812,16 @@ func (f *Frame) iterCell(it ssa.Value) *Cell {
 // loops
 
 type loopInfo struct {
-	preEntry map[string]string
+	preEntry     map[string]string
 	allocAtEntry string
-	hdrState *State
-	phiVals  map[*ssa.Phi]Val
-	havocked map[string]bool
-	havCells map[*Cell]bool
+	hdrState     *State
+	phiVals      map[*ssa.Phi]Val
+	havocked     map[string]bool
+	havCells     map[*Cell]bool
 	autoPreserve []string // heaps in which the body only allocates fresh objects
-	body map[*ssa.BasicBlock]bool
-	backConds []string // path conditions of the back edges (vacuity guard: some iteration must be able to complete)
+	body         map[*ssa.BasicBlock]bool
+	backConds    []string // path conditions of the back edges (vacuity guard: some iteration must be able to complete)
 }
-
 
 func (f *Frame) loopSpec(h *ssa.BasicBlock) *LoopSpec {
 	if f.spec == nil {
